@@ -24,7 +24,7 @@ if os.path.exists(f"{src}/meta.json"):
         agent = {}
 caught = {}
 props = sorted(p[:-3].upper() for p in os.listdir("/verif/hgv/props") if re.fullmatch(r"c\d\d\.py", p))
-env = dict(os.environ, HGV_PATCH=f"{src}/patch.diff", HGV_EVIDENCE_DIR="/tmp/hgv_try_evidence")
+env = dict(os.environ, HGV_PATCH=f"{src}/patch.diff", HGV_EVIDENCE_DIR=f"/tmp/hgv_try_evidence_{os.getpid()}")
 for p in props:
     r = subprocess.run(["python3-vt", "-m", "hgv", "check", p], cwd="/verif", env=env, capture_output=True, text=True)
     rules = sorted({ln.split()[1] for ln in r.stdout.splitlines() if ln.startswith("FINDING ")})
